@@ -384,6 +384,11 @@ if [id(r) for r in s2.rxns] != [id(r) for r in rxns] + [id(other.rxns[0])] or li
 r3 = ReactionSystem(rxns, "A B C D E", **CK); r3 += other
 if [id(r) for r in r3.rxns] != [id(r) for r in rxns] + [id(other.rxns[0])] or list(r3.substances) != ["A", "B", "C", "D", "E", "F"]: bad.append("__iadd__")
 if not (rsys == ReactionSystem(rxns, "A B C D E", **CK)) or (rsys == s2): bad.append("__eq__")
+r4 = ReactionSystem(rxns, "A B C D E F", **CK); r4 += (r for r in other.rxns)
+r5 = ReactionSystem(rxns, "A B C D E F", **CK); r5 += iter(list(other.rxns))
+if len(r4.rxns) != len(rxns) + 1 or len(r5.rxns) != len(rxns) + 1: bad.append("+= with a generator / iterator of reactions added %%d / %%d reactions" %% (len(r4.rxns) - len(rxns), len(r5.rxns) - len(rxns)))
+r6 = ReactionSystem((r for r in rxns), **CK)
+if len(r6.rxns) != len(rxns): bad.append("constructed from a generator: %%d of %%d reactions" %% (len(r6.rxns), len(rxns)))
 for b in bad: print("MISMATCH", b)
 sys.exit(1 if bad else 0)
 '''
@@ -393,6 +398,7 @@ def task_subset(nr, twins=False):
     from chempy import Reaction, ReactionSystem
 
     flags = [z3.Bool("pred%d" % i) for i in range(nr)]
+    gen_ok = []
 
     def fn():
         rxns = [Reaction({"A": 1}, {"B": 1}, 1), Reaction({"B": 1}, {"C": 1}, 2), Reaction({"C": 1, "D": 1}, {"A": 2}, 3)][:nr]
@@ -408,6 +414,14 @@ def task_subset(nr, twins=False):
         s2 = rsys + other
         r3 = ReactionSystem(rxns, "A B C D E", **ck)
         r3 += other
+        # the same sum with one-shot iterables of reactions (generator, iterator)
+        r4 = ReactionSystem(rxns, "A B C D E F", **ck)
+        r4 += (r for r in other.rxns)
+        r5 = ReactionSystem(rxns, "A B C D E F", **ck)
+        r5 += iter(list(other.rxns))
+        r6 = ReactionSystem((r for r in rxns), **ck)   # constructed from a generator, substances deduced
+        gen_ok.append(len(r4.rxns) == nr + 1 and len(r5.rxns) == nr + 1 and r4.rxns[-1] is other.rxns[0] and r5.rxns[-1] is other.rxns[0]
+                      and len(r6.rxns) == nr and all(a is b for a, b in zip(r6.rxns, rxns)))
         ids = lambda rs: [[i for i, x in enumerate(rxns + other.rxns) if x is r][0] for r in rs.rxns]  # noqa
         return (ids(yes), list(yes.substances), ids(no), list(no.substances), sorted(ids(tot)), ids(s2), list(s2.substances), ids(r3),
                 list(r3.substances), rsys == ReactionSystem(rxns, "A B C D E", **ck), rsys == s2)
@@ -420,6 +434,8 @@ def task_subset(nr, twins=False):
         if p.kind == "exc":
             return False
         y, ys, n, ns_, tot, s2, s2s, r3, r3s, eq1, eq2 = p.value
+        if not gen_ok or not gen_ok[-1]:
+            return False
         conds = []
         for i in range(nr):
             conds.append(flags[i] if i in y else z3.Not(flags[i]))
